@@ -7,7 +7,8 @@ Mirrors `glue/core/data.py`: `add_component` (shape check, pixel / world compone
 `_update_world_components`, `ComponentID.label` / `Data.label` setters, `find_component_id`, and the
 hub messages each of them broadcasts (`glue/core/message.py`).  Core Lean only.
 
-`Impl`  = `step` (the code that exists, *with* the repairs F13/F16/F17 of `props.d/C17/fixes`);
+`Impl`  = `step` (the code that exists, *with* the repairs F13/F16–F22 of `props.d/C17/fixes`;
+          `stepUnrepaired` keeps the behaviour before F20–F22 for the `decide`d witnesses);
 `Spec`  = `specInv` (structural invariant on an observation), `specStep` (the messages of one call
           explain exactly the observed change), `specTrace` (both, along a whole history).
 Identifiers (`ComponentID` objects) are natural numbers, labels are natural-number codes (the
@@ -123,13 +124,19 @@ def insertComp (cs : List Comp) (c : Comp) : List Comp :=
   if (cids cs).contains c.cid then cs.map (fun x => if x.cid == c.cid then c else x) else cs ++ [c]
 
 /-- Tail of `add_component` once the checks passed and the id is known: set `_shape` if it is still
-`()`, store the component, announce it unless the id was already present. -/
+`()`, store the component; a new id is announced as an addition, a replacement under an id that was
+already a key as a change of that component's values (repair F21; the harness always hands in a new
+`Component` object, so the `current is component` no-op never occurs). -/
 def addRaw (s : State) (c : Comp) : Res :=
   let cshape := compShape s.shape c
   let shape' := if s.shape == [] && cshape != [] then cshape else s.shape
   let present := (cids s.comps).contains c.cid
   ({ s with shape := shape', comps := insertComp s.comps c },
-   if s.hub && !present then [.add c.cid, .changed] else [])
+   if s.hub then (if present then [.numerical (some [c.cid])] else [.add c.cid, .changed]) else [])
+
+/-- `add_component` before the repair F21: a replacement under an id in use is not announced. -/
+def addRawSilent (s : State) (c : Comp) : Res :=
+  ((addRaw s c).1, if s.hub && !(cids s.comps).contains c.cid then [.add c.cid, .changed] else [])
 
 def announceAdds (s : State) (ids : List Cid) : List Msg :=
   if s.hub then ids.flatMap (fun c => [Msg.add c, Msg.changed]) else []
@@ -414,11 +421,19 @@ def step (s : State) : Op → Out
     let (s0, c) := fresh s l
     ok (addMain s0 c shape val)
   | .addArrayAt c shape val =>
-    if !canAdd s shape then fail s .value else ok (addMain s c shape val)
+    -- F21: an id already in use only takes a component of the same kind (here: an array replaces an
+    -- array, announced by `addRaw`); coordinate and derived components are not replaced
+    if s.comps.any (fun x => x.cid == c && !x.kind.isMain) then fail s .value
+    else if !canAdd s shape then fail s .value else ok (addMain s c shape val)
   | .addDerived viaLink l deps => addDerivedImpl s viaLink l deps
-  | .remove c => ok (removeComp s c)
+  | .remove c =>
+    -- F20: pixel / world components are managed by the dataset (`_update_world_components` and
+    -- `update_values_from_data` remove them through the private `_remove_component` = `removeComp`)
+    if s.comps.any (fun x => x.cid == c && x.kind.isCoord) then fail s .value else ok (removeComp s c)
   | .reorder cs => reorderImpl s cs
-  | .updateId old new => ok (updateIdImpl s old new)
+  | .updateId old new =>
+    -- F22: `new` must not already be a component of the dataset
+    if new != old && (cids s.comps).contains new then fail s .value else ok (updateIdImpl s old new)
   | .updateComponents m => updateComponentsImpl s m
   | .updateFrom o => updateFromImpl s o
   | .setCoords v => ok (setCoords s v)
@@ -438,6 +453,19 @@ def step (s : State) : Op → Out
     if s.linked.isEmpty && cs.isEmpty then ok (s, [])
     else ok ({ s with linked := cs }, if s.hub then [.ext] else [])
   | .nop => ok (s, [])
+
+/-- The mutation API before the repairs F20–F22 (only used by the witnesses of the old behaviour in
+`Props/C17.lean`): `remove_component` accepted pixel / world ids, `add_component` replaced a component
+under an id in use without announcing anything, `update_id` onto an id in use merged the two keys of
+the `OrderedDict`. -/
+def stepUnrepaired (s : State) : Op → Out
+  | .addArrayAt c shape val =>
+    if !canAdd s shape then fail s .value else
+    ok ((if s.comps.isEmpty then createPixelWorld s shape.length else (s, [])).bind fun s1 =>
+      addRawSilent s1 ⟨c, .main, shape, val⟩)
+  | .remove c => ok (removeComp s c)
+  | .updateId old new => ok (updateIdImpl s old new)
+  | op => step s op
 
 /-- A fresh `Data()` together with `npool` free-standing `ComponentID`s labelled `poolLabels`. -/
 def init (poolLabels : List Label) : State :=
@@ -579,6 +607,18 @@ def Op.isHubOp : Op → Bool
   | .register => true
   | _ => false
 
+/-- Who may send `NumericalDataChanged`: the two value-updating calls, and `add_component` onto an
+identifier that already is a component (the stored component is replaced) — then the message names
+exactly that identifier. -/
+def numericalOk (pre : List Cid) (op : Op) (m : Msg) : Bool :=
+  match m with
+  | .numerical cs =>
+    op.isValueUpdate ||
+    (match op with
+     | .addArrayAt c _ _ => pre.contains c && cs == some [c]
+     | _ => false)
+  | _ => true
+
 def numericalCovers (msgs : List Msg) (c : Cid) : Bool :=
   msgs.any fun m =>
     match m with
@@ -623,7 +663,8 @@ received, and whether the call raised:
 * a component identifier's label changed iff it was announced (`DataRenameComponent`), the dataset
   label changed iff `DataUpdate` was sent;
 * a surviving component whose kind / shape / values changed is covered by a
-  `NumericalDataChanged`; that message is only sent by the two value-updating calls;
+  `NumericalDataChanged`; that message is only sent by the two value-updating calls and by
+  `add_component` replacing the component of an identifier in use (`numericalOk`);
 * `ExternallyDerivableComponentsChanged` only accompanies a change of the linked set. -/
 def specStep (pre : Obs) (op : Op) (post : Obs) (msgs : List Msg) (err : Option Err) : Bool :=
   if err.isSome then post == pre && msgs.isEmpty
@@ -644,7 +685,7 @@ def specStep (pre : Obs) (op : Op) (post : Obs) (msgs : List Msg) (err : Option 
     && (!hub || ((pre.dlabel != post.dlabel) == msgs.contains .update))
     -- values
     && valuesOk hub pre post msgs
-    && (op.isValueUpdate || msgs.all (fun m => match m with | .numerical _ => false | _ => true))
+    && msgs.all (numericalOk (ocids pre) op)
     -- linked set
     && (!hub || post.inDc || !msgs.contains .ext || pre.linked.map (·.1) != post.linked.map (·.1) || op.isLinkOp)
     && (!hub || post.inDc || pre.linked.map (·.1) == post.linked.map (·.1) || msgs.contains .ext)
@@ -700,12 +741,11 @@ abbrev Inv (s : State) : Prop := InvG s.shape s
 
 /-! ## the part of the API the theorems cover -/
 
-/-- Why a call is outside the hypothesis of the `_partial` theorems (`ok` = inside). -/
+/-- Why a call is outside the hypothesis of the `_partial` theorems (`ok` = inside). None of the
+remaining constructs is a known defect (F20–F22 — removing a coordinate component, adding onto an id
+in use, `update_id` onto an id in use — are repaired and inside the hypothesis). -/
 inductive Construct where
   | ok
-  | removeCoordinate     -- remove_component on a pixel / world component (or a listed pixel / world id)
-  | addExistingId        -- add_component with a ComponentID that is already a key: silent replacement
-  | updateIdOntoUsed     -- update_id whose `new` already is a key / a listed pixel / world id
   | updateIdDependents   -- update_id of an input of a derived component (C14 / F14)
   | updateNonMain        -- update_components on a derived / coordinate / linked component
   | renameForeign        -- label change of an id that is not a component of the dataset
@@ -717,9 +757,6 @@ inductive Construct where
 
 def Construct.name : Construct → String
   | .ok => "ok"
-  | .removeCoordinate => "remove-coordinate"
-  | .addExistingId => "add-existing-id"
-  | .updateIdOntoUsed => "update-id-onto-used"
   | .updateIdDependents => "update-id-dependents"
   | .updateNonMain => "update-non-main"
   | .renameForeign => "rename-foreign"
@@ -727,9 +764,6 @@ def Construct.name : Construct → String
   | .scalarShape => "scalar-shape"
   | .unknownId => "unknown-id"
   | .coordsDims => "coords-dims"
-
-def isCoordCid (s : State) (c : Cid) : Bool :=
-  s.pix.contains c || s.world.contains c || s.comps.any (fun x => x.cid == c && x.kind.isCoord)
 
 /-- Every identifier a call mentions. -/
 def Op.ids : Op → List Cid
@@ -745,16 +779,13 @@ def Op.ids : Op → List Cid
 
 def classifyArgs (s : State) : Op → Construct
   | .addArray _ shape _ => if shape.isEmpty then .scalarShape else .ok
-  | .addArrayAt c shape _ =>
-    if shape.isEmpty then .scalarShape
-    else if (cids s.comps).contains c || s.pix.contains c || s.world.contains c then .addExistingId
-    else .ok
+  | .addArrayAt _ shape _ =>
+    if shape.isEmpty then .scalarShape else .ok
   | .addDerived _ _ _ => .ok
-  | .remove c => if isCoordCid s c then .removeCoordinate else .ok
+  | .remove _ => .ok
   | .reorder _ => .ok
   | .updateId old new =>
     if new == old then .ok
-    else if (cids s.comps).contains new || s.pix.contains new || s.world.contains new then .updateIdOntoUsed
     else if s.comps.any (fun x => x.kind.dependsOn old) then .updateIdDependents
     else .ok
   | .updateComponents m =>
